@@ -557,10 +557,14 @@ pub enum Fault {
     CloseDoc,
     DisableSync,
     Shutdown,
+    /// not a local fault but one of the transport: the stream towards that side ends (cleanly)
+    /// in the middle of its k-th incoming frame
+    CutInside,
 }
 
 async fn inject(h: &SyncHandle, f: Fault) {
     match f {
+        Fault::CutInside => {}
         Fault::CloseDoc => {
             let _ = h.close(ns_id(0)).await;
         }
@@ -593,6 +597,13 @@ async fn relay(
         }
         if let Some((k, f, h)) = &fault_at {
             if *k == n {
+                if *f == Fault::CutInside {
+                    // half of the frame (length prefix included), then a clean end of stream
+                    let mut whole = len.to_vec();
+                    whole.extend_from_slice(&buf);
+                    let _ = w.write_all(&whole[..whole.len() / 2]).await;
+                    break;
+                }
                 inject(h, *f).await;
             }
         }
@@ -1137,7 +1148,7 @@ fn judge_fault(case: &Case, obs: &Observed, what: &str) -> Vec<(&'static str, Va
                 bad.push((
                     "local_fault_stops_the_session",
                     json!({"fault": format!("{f:?}"), "side": side}),
-                    format!("{what}: the {} reported success although its document was {} before a message it had to process ({})", if *side == 0 { "initiator" } else { "acceptor" }, match f { Fault::CloseDoc => "closed", Fault::DisableSync => "taken out of sync", Fault::Shutdown => "shut down (actor)" }, obs.sut_result),
+                    format!("{what}: the {} reported success although its document was {} before a message it had to process ({})", if *side == 0 { "initiator" } else { "acceptor" }, match f { Fault::CloseDoc => "closed", Fault::DisableSync => "taken out of sync", Fault::Shutdown => "shut down (actor)", Fault::CutInside => "cut off by a stream that ended inside the frame" }, obs.sut_result),
                 ));
             }
         }
@@ -1310,7 +1321,10 @@ fn run(ctx: &Ctx, report: &mut Report) {
                 ks.push(usize::MAX);
             }
             for k in ks {
-                for fault in [Fault::CloseDoc, Fault::DisableSync, Fault::Shutdown] {
+                for fault in [Fault::CloseDoc, Fault::DisableSync, Fault::Shutdown, Fault::CutInside] {
+                    if fault == Fault::CutInside && (k == usize::MAX || k >= frames) {
+                        continue;
+                    }
                     ordinal += 1;
                     if !ctx.mine(ordinal) {
                         continue;
